@@ -116,6 +116,32 @@ def cmp_family():
     return lines
 
 
+def cursor_family():
+    """Deterministic (seed-independent) sweep-cursor family: N long strings, all marked; a partial
+    sweep of k < N slots leaves the cursor in the middle of the table; ONE string (every position:
+    behind the cursor, at it, ahead of it) is marked again; then slices of u slots run through two
+    full cycles, reading every handle after each slice.  A mark is a mark wherever the cursor stands:
+    the re-marked string must survive the pass that reclaims its neighbours (clause "marked since the
+    sweeper last passed over it", for work units smaller than the table)."""
+    lines = []
+    for n in (2, 3, 4, 5):
+        for k in range(1, n):
+            for tgt in range(n):
+                for u in (1, 2, 3):
+                    names = [f"k{i}" for i in range(n)]
+                    lines.append("reset")
+                    for i, v in enumerate(names):
+                        lines += [f"as {v} {hexs('cursor-family-string-%02d-%s' % (i, 'x' * i))}", f"rd {v}"]
+                    for v in names:
+                        lines += [f"rd {v}", f"mk {v}"]
+                    lines += ["stat", f"sw {k}"]
+                    lines += [f"rd {names[tgt]}", f"mk {names[tgt]}"]
+                    for _ in range((2 * n) // u + 3):
+                        lines += ["stat", f"sw {u}"] + [f"rd {v}" for v in names]
+                    lines += [f"as r{tgt} {hexs('cursor-family-string-%02d-%s' % (tgt, 'x' * tgt))}", f"rd r{tgt}", "stat"]
+    return lines
+
+
 def resolve(lines, impl):
     out = []
     for i, l in enumerate(lines):
@@ -414,6 +440,9 @@ def run(ctx):
     fam = cmp_family()
     check_lines(ctx, fam, "deterministic comparison family")
     total_lines += len(fam)
+    cur = cursor_family()
+    check_lines(ctx, cur, "deterministic sweep-cursor family")
+    total_lines += len(cur)
     distinct, nontrivial, opcount, samples = set(), 0, {}, []
     batch = 200
     done = 0
